@@ -122,7 +122,7 @@ func (fx *FuncVC) modularCall(fn *ssa.Function, spec *FuncSpec, spkg *PkgInfo, a
 	env := &Env{fx: fx, st: pre, vars: map[string]Val{}, pkg: spkg}
 	fx.bindParams(env, fn, args)
 	// implicit: pointer receiver is not nil
-	if fn.Signature.Recv() != nil && len(args) > 0 {
+	if fn.Signature.Recv() != nil && len(args) > 0 && spec.Options["nilable-receiver"] == "" {
 		if p, ok := args[0].(PtrV); ok && p.Kind != pkCell {
 			fx.oblige("call-pre", Not(Eq(ptrRefLoose(p), IntC(0))), pos, "receiver of "+fn.Name()+" is not nil")
 		}
@@ -200,6 +200,20 @@ func shortFile(f string) string {
 }
 
 func (fx *FuncVC) bindParams(env *Env, fn *ssa.Function, args []Val) {
+	if len(fn.Params) == 0 {
+		// functions without a body (library functions): names from the signature
+		k := 0
+		if r := fn.Signature.Recv(); r != nil && k < len(args) {
+			env.vars[r.Name()] = args[k]
+			k++
+		}
+		ps := fn.Signature.Params()
+		for i := 0; i < ps.Len() && k < len(args); i++ {
+			env.vars[ps.At(i).Name()] = args[k]
+			k++
+		}
+		return
+	}
 	for i, p := range fn.Params {
 		if i < len(args) {
 			env.vars[p.Name()] = args[i]
